@@ -596,13 +596,33 @@ func (b *bmcSys) intrinsic(m *Machine, name string, fn *ssa.Function, args []Val
 
 // The virtual clock is a narrow bit-vector (durations in the harnesses are
 // small constants; ticks are bounded so that it cannot wrap within K steps).
-const clockW = 24
+const clockW = 40
+
+// maxDur: durations are saturated here ("a long time"); a tick is at most twice
+// that, so that every timer can expire, and K*2*maxDur stays below 2^40.
+const maxDur = 1 << 30
 
 func (b *bmcSys) dur(d *term.T) *term.T {
-	if d.S.W > clockW {
-		return b.f.Extract(clockW-1, 0, d)
+	f := b.f
+	if d.IsConst() {
+		v := term.SignedVal(d)
+		if v < 0 {
+			v = 0
+		}
+		if v > maxDur {
+			v = maxDur
+		}
+		return f.BVC(clockW, uint64(v))
 	}
-	return b.f.ZExt(clockW, d)
+	// symbolic duration: saturate as well
+	x := d
+	if x.S.W > clockW {
+		big := f.Not(f.Eq(f.Extract(x.S.W-1, clockW-1, x), f.BVC(x.S.W-clockW+1, 0)))
+		x = f.Extract(clockW-1, 0, x)
+		return f.Ite(f.Or(big, f.ULt(f.BVC(clockW, maxDur), x)), f.BVC(clockW, maxDur), x)
+	}
+	x = f.ZExt(clockW, x)
+	return f.Ite(f.ULt(f.BVC(clockW, maxDur), x), f.BVC(clockW, maxDur), x)
 }
 
 // durations and BMC integers: the clock is a mathematical integer; Go values are bit-vectors
